@@ -10,10 +10,12 @@ LEVEL = "proof"
 LEVEL_TEXT = ("plot_mode_to_idx (all 7 modes: the whole domain), prepare_axis (7 modes x 3 length units: labels name the "
               "plotted coordinates and the unit, 3-D axes only for xyz), traj (7 modes, trajectories of any length: the line's "
               "data are the columns of the trajectory's own positions named by the mode, in pose order) and traj_xyz (x / y / z "
-              "against the timestamps, shifted by the start time, or against the pose index; labels), add_start_end_markers "
+              "against the timestamps, shifted by the start time, or against the pose index - never shifted; labels), traj_rpy (angle i "
+              "of pose k in degrees in subplot i at position k, same x axis rules; the Euler angles themselves are an opaque ghost "
+              "array), add_start_end_markers "
               "(first / last pose, the axes of the mode) and speeds (value k at the timestamp of pose k+1) are verified against a "
               "ghost Axes that records what reaches matplotlib.  Colour-mapped segments, start / end markers, coordinate-frame "
-              "markers, correspondence edges, roll/pitch/yaw, speeds and error-value plots: bounded stand-in that inspects the "
+              "markers, correspondence edges, values of roll/pitch/yaw, speeds and error-value plots: bounded stand-in that inspects the "
               "real matplotlib artists (Agg backend).")
 LEVEL_NOTE = ("matplotlib itself is outside the model (ghost Axes records calls); set_aspect_equal replaced by a no-op; "
               "line collections and 3-D artists: bounded stand-in only")
@@ -21,7 +23,7 @@ SIDECARS = ["contracts.lie_algebra", "contracts.geometry", "contracts.filters", 
             "contracts.overwrite", "contracts.plots"]
 OVERRIDES = _ow.OVERRIDES
 PL = "evo.tools.plot."
-FUNCTIONS = [PL + "plot_mode_to_idx", PL + "prepare_axis", PL + "traj", PL + "traj_xyz", PL + "add_start_end_markers", PL + "speeds"]
+FUNCTIONS = [PL + "plot_mode_to_idx", PL + "prepare_axis", PL + "traj", PL + "traj_xyz", PL + "traj_rpy", PL + "add_start_end_markers", PL + "speeds"]
 LEMMAS = []
 TRUSTED = ["Axes.plot(x, y[, z]) draws the given data in order; Axes.set_xlabel etc. set the label"]
 ASSUMPTIONS = ["rendering (matplotlib) trusted; ros_map / map_tile not covered"]
